@@ -349,7 +349,12 @@ class QueryGen:
             self.tag("derived")
             sub = QueryGen(r, self.tables, self.f)
             sub.alias_n = self.alias_n + 10
-            q = sub.select_core(allow_order=False, max_items=3)
+            # every select item of a derived table refers to a column: a constant item on the
+            # NULL-padded side of an outer join is a known finding (C01) with its own sentinel
+            for _ in range(8):
+                q = sub.select_core(allow_order=False, max_items=3)
+                if all("." in part for part in q["items"]):
+                    break
             self.tags |= sub.tags
             scope = [(f"{a0}.c{i}", ty, True) for i, ty in enumerate(q["types"])]
             inner = q["sql"]
@@ -511,7 +516,7 @@ class QueryGen:
                 distinct = "DISTINCT "
         sel = ", ".join(f"{e} AS c{i}" for i, e in enumerate(items))
         sql = f"SELECT {distinct}{sel} FROM {frm}{where_sql}{group_sql}{having_sql}"
-        return dict(sql=sql, types=types, n=len(items))
+        return dict(sql=sql, types=types, n=len(items), items=items)
 
     def agg_expr(self, scope, int_only=False):
         r = self.rng
